@@ -15,6 +15,9 @@ import (
 	"github.com/kercylan98/vivid/xverif/lib"
 )
 
+// pendingAccepts counts, over the run, the JoinRequests accepted by a node whose own join was still pending (class "pending")
+var pendingAccepts int
+
 type Scen struct {
 	s       *Sim
 	r       *lib.Rand
@@ -39,6 +42,14 @@ func pair(a, b string) [2]string {
 }
 
 func (sc *Scen) isBlocked(a, b string) bool { return sc.blocked[pair(a, b)] }
+
+// clean: the classes whose histories are clean in the sense of coq/Cluster/GossipClean.v (failure detection off, nothing
+// crashes, leaves or is forced down, every NodeID is used once): join, islands, seedsplit. On them the convergence clause
+// of C18 is a theorem of the model (Properties/C18.v section 5), so every end-state discrepancy is a VIOLATION.
+func (sc *Scen) clean() bool { return sc.class == "join" || sc.class == "islands" || sc.class == "seedsplit" }
+
+// noStop: classes in which nothing crashes, leaves or is forced down (clean ones and the undecided class "pending")
+func (sc *Scen) noStop() bool { return sc.clean() || sc.class == "pending" }
 
 func (sc *Scen) runningAddrs() []string {
 	as := make([]string, 0, len(sc.s.nodes))
@@ -107,7 +118,7 @@ func (sc *Scen) faultStep() {
 		}
 	case x < 74 && len(s.net) > 0:
 		sc.deliverOrDrop(r.Intn(len(s.net)), true)
-	case x < 80 && len(run) >= 2:
+	case x < 80 && len(run) >= 2 && sc.class != "seedsplit": // (seedsplit keeps its two sides apart until the faults stop)
 		a, b := run[r.Intn(len(run))], run[r.Intn(len(run))]
 		if a != b {
 			if sc.blocked[pair(a, b)] {
@@ -116,7 +127,7 @@ func (sc *Scen) faultStep() {
 				sc.blocked[pair(a, b)] = true
 			}
 		}
-	case x < 85 && len(run) > 0 && sc.class != "join":
+	case x < 85 && len(run) > 0 && sc.class != "join" && !sc.noStop():
 		a := run[r.Intn(len(run))]
 		if !sc.isSeed(a) {
 			sc.stopped[a] = s.nodes[a].cfg
@@ -239,8 +250,133 @@ func collapse(name string, hs []hit) []hit {
 	return out
 }
 
-// randomScenario builds and runs one generated scenario of the given class.
-func randomScenario(r *lib.Rand, idx int, class string, big bool) (*Sim, *Scen, []hit) {
+// islandsPlan: self-seeded islands (each island seed lists only itself, 0-2 members join it) that are introduced to each
+// other only by bridge nodes started later, each listing the seeds of two or more islands: no node of one island has a
+// node of another in its seed list, so the islands can meet only because a node keeps gossiping to a configured seed
+// that is NOT (yet) a member of its view (gossip_selector.go). i == 0 is the canonical 4-node instance
+// (A=[A], B=[B], C=[A,B], D=[B]) without any fault.
+func islandsPlan(r *lib.Rand, i int) (plan []Cfg, seeds []string, desc string) {
+	k := 2 + r.Intn(2)
+	if i == 0 {
+		k = 2
+	}
+	port := 7001
+	next := func() string { port++; return fmt.Sprintf("127.0.0.1:%d", port-1) }
+	id := func() string { return fmt.Sprintf("n%d", port-7001) }
+	var members []Cfg
+	for j := 0; j < k; j++ {
+		a := next()
+		plan = append(plan, Cfg{ID: id(), Addr: a, Seeds: []string{a}})
+		seeds = append(seeds, a)
+		nm := r.Intn(3)
+		if i == 0 {
+			nm = j // A alone, B gets D
+		}
+		for x := 0; x < nm; x++ {
+			ma := next()
+			members = append(members, Cfg{ID: id(), Addr: ma, Seeds: []string{a}})
+		}
+	}
+	// bridges: a chain I1-I2, I2-I3 ... (each bridge lists two island seeds in random order), so the seed graph is connected
+	var bridges []Cfg
+	for j := 0; j+1 < k; j++ {
+		ba := next()
+		ss := []string{seeds[j], seeds[j+1]}
+		if i != 0 && r.Bool() {
+			ss[0], ss[1] = ss[1], ss[0]
+		}
+		bridges = append(bridges, Cfg{ID: id(), Addr: ba, Seeds: ss})
+	}
+	if i == 0 { // canonical start order of the demo: A, B, C (bridge), D (member of B)
+		plan = append(plan, bridges...)
+		plan = append(plan, members...)
+	} else {
+		rest := append(members, bridges...)
+		for x := len(rest) - 1; x > 0; x-- {
+			y := r.Intn(x + 1)
+			rest[x], rest[y] = rest[y], rest[x]
+		}
+		plan = append(plan, rest...)
+		if r.Chance(1, 3) { // any start order, islands included
+			for x := len(plan) - 1; x > 0; x-- {
+				y := r.Intn(x + 1)
+				plan[x], plan[y] = plan[y], plan[x]
+			}
+		}
+	}
+	return plan, seeds, fmt.Sprintf("islands=%d bridges=%d members=%d", k, len(bridges), len(members))
+}
+
+// seedsplitPlan: 2-3 seeds that all list all seeds, each with 0-2 joiners, split into sides that cannot reach each other
+// while they start (every cross-side pair is partitioned, so each seed bootstraps its own island and the joiners join the
+// seed of their side); the partition heals when the faults stop. i == 0 is the canonical instance (A, B seeds; C joins
+// A, D joins B).
+func seedsplitPlan(r *lib.Rand, i int) (plan []Cfg, seeds []string, side map[string]int, desc string) {
+	k := 2 + r.Intn(2)
+	if i == 0 {
+		k = 2
+	}
+	side = map[string]int{}
+	port := 7001
+	next := func() string { port++; return fmt.Sprintf("127.0.0.1:%d", port-1) }
+	id := func() string { return fmt.Sprintf("n%d", port-7001) }
+	for j := 0; j < k; j++ {
+		seeds = append(seeds, fmt.Sprintf("127.0.0.1:%d", 7001+j))
+	}
+	for j := 0; j < k; j++ {
+		a := next()
+		ss := append([]string(nil), seeds...)
+		if i != 0 && r.Bool() {
+			ss[0], ss[len(ss)-1] = ss[len(ss)-1], ss[0]
+		}
+		plan = append(plan, Cfg{ID: id(), Addr: a, Seeds: ss})
+		side[a] = j
+	}
+	nj := 0
+	for j := 0; j < k; j++ {
+		nm := r.Intn(3)
+		if i == 0 {
+			nm = 1
+		}
+		for x := 0; x < nm; x++ {
+			a := next()
+			ss := append([]string(nil), seeds...)
+			if i != 0 && r.Bool() {
+				ss[0], ss[len(ss)-1] = ss[len(ss)-1], ss[0]
+			}
+			plan = append(plan, Cfg{ID: id(), Addr: a, Seeds: ss})
+			side[a] = j
+			nj++
+		}
+	}
+	return plan, seeds, side, fmt.Sprintf("sides=%d joiners=%d", k, nj)
+}
+
+// pendingPlan: the class the convergence proof leaves undecided - a node P whose own join is still pending (its only seed
+// S starts last) is itself a seed of others: X = [X, P] bootstraps and gossips to P, which thereby holds a view and a
+// quorum although it has not joined, and ACCEPTS the JoinRequests of J1.. = [P] (incrementing a version-vector entry for
+// its own id, which is no member of its view; recomputeCounts prunes it at the next change and the counter value is used
+// again). S = [S] starts when the faults stop; P's retry then goes through. Seed lists connect everybody (X-P, J-P, P-S).
+func pendingPlan(r *lib.Rand, i int) (early []Cfg, late []Cfg, seeds []string, desc string) {
+	x, p, sd := "127.0.0.1:7001", "127.0.0.1:7002", "127.0.0.1:7003"
+	early = append(early, Cfg{ID: "n1", Addr: x, Seeds: []string{x, p}}, Cfg{ID: "n2", Addr: p, Seeds: []string{sd}})
+	nj := 1 + r.Intn(3)
+	if i == 0 {
+		nj = 2
+	}
+	for j := 0; j < nj; j++ {
+		ss := []string{p}
+		if i != 0 && r.Chance(1, 3) {
+			ss = []string{p, x}
+		}
+		early = append(early, Cfg{ID: fmt.Sprintf("n%d", 4+j), Addr: fmt.Sprintf("127.0.0.1:%d", 7004+j), Seeds: ss})
+	}
+	late = append(late, Cfg{ID: "n3", Addr: sd, Seeds: []string{sd}})
+	return early, late, []string{x, p, sd}, fmt.Sprintf("pending-acceptor joiners=%d", nj)
+}
+
+// randomScenario builds and runs one generated scenario of the given class (the i-th of its class).
+func randomScenario(r *lib.Rand, idx int, class string, big bool, i int) (*Sim, *Scen, []hit) {
 	s := NewSim()
 	sc := &Scen{s: s, r: r, class: class, blocked: map[[2]string]bool{}, stopped: map[string]Cfg{}}
 	scale := int64(1)
@@ -251,59 +387,142 @@ func randomScenario(r *lib.Rand, idx int, class string, big bool) (*Sim, *Scen, 
 	}
 	sc.D = 50 * scale
 	sc.fdEvery = 3
-	nNodes := 2 + r.Intn(3)
-	if r.Chance(1, 5) {
-		nNodes = 5 + r.Intn(3)
-	}
 	var T, conf int64
-	if class == "fd" {
-		T = 300 * scale
-		conf = []int64{0, 0, 150 * scale, 100000 * scale}[r.Intn(4)]
-	}
-	nSeeds := 1 + r.Intn(3)
-	if nSeeds > nNodes {
-		nSeeds = nNodes
-	}
-	addrs := make([]string, nNodes)
-	for i := range addrs {
-		addrs[i] = fmt.Sprintf("127.0.0.1:%d", 7001+i)
-	}
-	// the seeds are not necessarily the smallest addresses
-	perm := make([]int, nNodes)
-	for i := range perm {
-		perm[i] = i
-	}
-	for i := nNodes - 1; i > 0; i-- {
-		j := r.Intn(i + 1)
-		perm[i], perm[j] = perm[j], perm[i]
-	}
-	for i := 0; i < nSeeds; i++ {
-		sc.seeds = append(sc.seeds, addrs[perm[i]])
-	}
 	island := ""
-	if nNodes >= 3 && r.Chance(1, 4) { // a self-seeded island: a seed of the others that lists only itself
-		island = sc.seeds[0]
-	}
-	for i, a := range addrs {
-		c := Cfg{ID: fmt.Sprintf("n%d", i+1), Addr: a, Seeds: append([]string(nil), sc.seeds...), FD: time.Duration(T), Confirm: time.Duration(conf)}
-		if a == island {
-			c.Seeds = []string{a}
+	nNodes := 0
+	extra := ""
+	var late []Cfg
+	switch class {
+	case "pending":
+		sc.plan, late, sc.seeds, extra = pendingPlan(r, i)
+		nNodes = len(sc.plan) + len(late)
+	case "islands":
+		sc.plan, sc.seeds, extra = islandsPlan(r, i)
+		nNodes = len(sc.plan)
+	case "seedsplit":
+		var side map[string]int
+		sc.plan, sc.seeds, side, extra = seedsplitPlan(r, i)
+		nNodes = len(sc.plan)
+		for a, sa := range side {
+			for b, sb := range side {
+				if sa != sb {
+					sc.blocked[pair(a, b)] = true
+				}
+			}
 		}
-		if r.Chance(1, 6) && len(c.Seeds) > 1 { // another seed order
-			c.Seeds[0], c.Seeds[len(c.Seeds)-1] = c.Seeds[len(c.Seeds)-1], c.Seeds[0]
+	default:
+		nNodes = 2 + r.Intn(3)
+		if r.Chance(1, 5) {
+			nNodes = 5 + r.Intn(3)
 		}
-		sc.plan = append(sc.plan, c)
+		if class == "fd" {
+			T = 300 * scale
+			conf = []int64{0, 0, 150 * scale, 100000 * scale}[r.Intn(4)]
+		}
+		nSeeds := 1 + r.Intn(3)
+		if nSeeds > nNodes {
+			nSeeds = nNodes
+		}
+		addrs := make([]string, nNodes)
+		for i := range addrs {
+			addrs[i] = fmt.Sprintf("127.0.0.1:%d", 7001+i)
+		}
+		// the seeds are not necessarily the smallest addresses
+		perm := make([]int, nNodes)
+		for i := range perm {
+			perm[i] = i
+		}
+		for i := nNodes - 1; i > 0; i-- {
+			j := r.Intn(i + 1)
+			perm[i], perm[j] = perm[j], perm[i]
+		}
+		for i := 0; i < nSeeds; i++ {
+			sc.seeds = append(sc.seeds, addrs[perm[i]])
+		}
+		if nNodes >= 3 && r.Chance(1, 4) { // a self-seeded island: a seed of the others that lists only itself
+			island = sc.seeds[0]
+		}
+		for i, a := range addrs {
+			c := Cfg{ID: fmt.Sprintf("n%d", i+1), Addr: a, Seeds: append([]string(nil), sc.seeds...), FD: time.Duration(T), Confirm: time.Duration(conf)}
+			if a == island {
+				c.Seeds = []string{a}
+			}
+			if r.Chance(1, 6) && len(c.Seeds) > 1 { // another seed order
+				c.Seeds[0], c.Seeds[len(c.Seeds)-1] = c.Seeds[len(c.Seeds)-1], c.Seeds[0]
+			}
+			sc.plan = append(sc.plan, c)
+		}
 	}
 	sc.lossPct = []int{0, 10, 30}[r.Intn(3)]
-	sc.name = fmt.Sprintf("#%d class=%s nodes=%d seeds=%v island=%q fd=%d confirm=%d loss=%d%% scale=%d", idx, class, nNodes, sc.seeds, island, T, conf, sc.lossPct, scale)
+	if (class == "islands" || class == "seedsplit" || class == "pending") && i == 0 {
+		sc.lossPct = 0
+	}
+	sc.name = fmt.Sprintf("#%d class=%s nodes=%d seeds=%v island=%q %s fd=%d confirm=%d loss=%d%% scale=%d", idx, class, nNodes, sc.seeds, island, extra, T, conf, sc.lossPct, scale)
 	s.askOK = func(src, dst string) bool { return !sc.isBlocked(src, dst) && r.Intn(100) >= sc.lossPct }
 	nFault := 20 + r.Intn(60)
+	switch {
+	case class == "islands" && i == 0:
+		// the canonical instance: no fault at all - every node starts, one canonical round after each start
+		nFault = 0
+		for len(sc.plan) > 0 {
+			s.now += sc.D
+			c := sc.plan[0]
+			sc.plan = sc.plan[1:]
+			s.Start(c)
+			sc.drain(false)
+		}
+	case class == "pending":
+		// X, P, the joiners start in this order with rounds of ticks and deliveries in between, so that P holds X's view
+		// before the JoinRequests arrive
+		for len(sc.plan) > 0 {
+			s.now += sc.D
+			c := sc.plan[0]
+			sc.plan = sc.plan[1:]
+			s.Start(c)
+			if pn := s.nodes["127.0.0.1:7002"]; pn != nil && c.Addr != pn.cfg.Addr && pn.timers[cluster.SchedRefJoinRetry] && members(pn)[c.ID] != nil {
+				pendingAccepts++ // P accepted this JoinRequest while its own join is pending
+				sc.desc = append(sc.desc, "the pending node accepted the join of "+c.ID)
+			}
+			for _, a := range sc.runningAddrs() {
+				if s.nodes[a].timers[cluster.SchedRefGossip] {
+					s.GossipTick(a)
+				}
+			}
+			sc.drain(true)
+		}
+		nFault = 10 + r.Intn(30)
+	case class == "seedsplit":
+		// both sides come up completely while they are apart (the plan is started in order, with fault steps in between)
+		for len(sc.plan) > 0 {
+			s.now += int64(r.Intn(int(sc.D)))
+			c := sc.plan[0]
+			sc.plan = sc.plan[1:]
+			s.Start(c)
+			for x := r.Intn(6); x > 0; x-- {
+				sc.faultStep()
+			}
+		}
+		if i == 0 {
+			nFault = 12
+		}
+	}
 	for i := 0; i < nFault; i++ {
 		sc.faultStep()
 	}
 	// the faults stop: partitions heal, every node that is to run is started, nothing is lost any more
+	if class == "seedsplit" { // what was sent across the partition while it lasted is lost
+		for k := 0; k < len(s.net); {
+			if p := s.net[k]; sc.isBlocked(p.src, p.dst) {
+				sc.s.hist.noteLoss(p.src, p.dst)
+				s.Drop(k)
+			} else {
+				k++
+			}
+		}
+	}
 	sc.blocked = map[[2]string]bool{}
 	s.askOK = func(string, string) bool { return true }
+	sc.plan = append(sc.plan, late...)
 	for len(sc.plan) > 0 {
 		s.now += int64(r.Intn(int(sc.D)))
 		c := sc.plan[0]
@@ -344,6 +563,15 @@ func randomScenario(r *lib.Rand, idx int, class string, big bool) (*Sim, *Scen, 
 	}
 	for _, b := range s.bad {
 		hits = append(hits, hit{"harness:unexpected-call", "unexplained: " + b})
+	}
+	for _, m := range s.missing {
+		hits = append(hits, hit{"harness:step-not-enabled", "unexplained: " + m})
+	}
+	if sc.clean() && len(hits) > 0 {
+		// a clean history (failure detection off, no crash / leave / force-down, every NodeID used once) whose seed lists
+		// connect the nodes: Properties/C18.v C18_clean_history_converges proves convergence of the model, so this is a
+		// violation of the property by the implementation (or the model no longer describes it), never a known finding
+		hits = append(hits, hit{"clean-history-not-converged", fmt.Sprintf("unexplained: after %d fair rounds of a clean history the running nodes have not converged or still announce changes: %s: %s", R, hits[0].name, hits[0].detail)})
 	}
 	return s, sc, collapse(sc.name+" ("+strings.Join(sc.desc, "; ")+")", hits)
 }
